@@ -357,3 +357,6 @@ class GHE(BaseGHE):
         )
 
         self.bhe.b.H = returned_height
+        # the solver's last evaluation is not necessarily at the returned height (e.g. when the
+        # height is clamped at a bound), so make the stored temperatures describe the returned design
+        self.simulate(method=method)
